@@ -1093,6 +1093,47 @@ pub fn version_builder_apply(
     })
 }
 
+/// `VersionBuilder::accumulate_changes` for several edits in a row (as the replay of a manifest does) followed by one
+/// `apply_changes`. Every edit = (deleted `(level, number)`, added files). Returns the file numbers per level of the new version,
+/// or the panic message.
+pub fn version_builder_apply_edits(
+    options: DbOptions,
+    base: &[(usize, Vec<VFile>)],
+    edits: &[(Vec<(usize, u64)>, Vec<(usize, Vec<VFile>)>)],
+) -> Result<Vec<Vec<u64>>, String> {
+    let r = std::panic::catch_unwind(std::panic::AssertUnwindSafe(|| {
+        let (v, _tc) = version_with(&options, base);
+        let node = Arc::new(parking_lot::RwLock::new(Node::new(v)));
+        let mut b = crate::versioning::version_builder::VersionBuilder::new();
+        for (deleted, added) in edits {
+            let mut m = VersionChangeManifest::default();
+            for (level, number) in deleted {
+                m.remove_file(*level, *number);
+            }
+            for (level, files) in added {
+                for f in files {
+                    m.add_file(
+                        *level,
+                        f.0,
+                        f.1,
+                        InternalKey::new(f.2 .0.clone(), f.2 .1, Operation::Put)..InternalKey::new(f.3 .0.clone(), f.3 .1, Operation::Put),
+                    );
+                }
+            }
+            b.accumulate_changes(&m);
+        }
+        let mut ptrs: [Option<InternalKey>; 7] = Default::default();
+        let nv = b.apply_changes(&node, 0, 0, &mut ptrs);
+        nv.files.iter().map(|l| l.iter().map(|f| f.file_number()).collect::<Vec<u64>>()).collect::<Vec<_>>()
+    }));
+    r.map_err(|e| {
+        e.downcast_ref::<String>()
+            .cloned()
+            .or_else(|| e.downcast_ref::<&str>().map(|s| s.to_string()))
+            .unwrap_or_else(|| "panic".to_string())
+    })
+}
+
 /// Install files at the given levels through `log_and_apply` and compare the numbers of the current version with
 /// `VersionSet::get_live_files`. Returns (installed numbers, live numbers).
 pub fn vset_live_files(options: DbOptions, levels: &[(usize, Vec<VFile>)]) -> (Vec<u64>, Vec<u64>) {
